@@ -483,6 +483,25 @@ func exec(op string) (res string) {
 			return "noverify"
 		}
 		return "verify"
+	case "untouched":
+		if len(w) != 7 {
+			return "bad-op"
+		}
+		a := tlsOp(w)
+		var l []string
+		if strings.Contains(a, "ALIAS:") {
+			l = append(l, "fields")
+		}
+		if strings.Contains(a, "callerpool=grew") {
+			l = append(l, "pool")
+		}
+		if strings.Contains(a, "backing=written") {
+			l = append(l, "backing")
+		}
+		if len(l) == 0 {
+			return "untouched"
+		}
+		return "MODIFIED:" + strings.Join(l, "+")
 	case "badfile":
 		p := thePKI
 		_, err := gocql.VerifSetupTLSConfig(&gocql.SslOptions{EnableHostVerification: true,
@@ -673,6 +692,18 @@ func main() {
 				op := "badfile " + ca + " " + cert + " " + key
 				a := exec(op)
 				out.Case(op, a, "oracle/badfile/"+a, true)
+			}
+		}
+	}
+	for _, cfg := range []string{"I0S0R0C0", "I1S0R0C0", "I0S1R0C1", "I1S1R0C1", "I0S0R1C0", "I1S0R1C1", "I1S1R1C0"} {
+		for _, ehv := range []string{"0", "1"} {
+			for _, files := range [][3]string{{"absent", "absent", "absent"}, {"valid", "absent", "absent"}, {"valid", "valid", "valid"},
+				{"absent", "valid", "valid"}, {"unparsable/garbage", "valid", "valid"}, {"valid", "valid", "foreign"}} {
+				for _, spare := range []string{"0", "1"} {
+					op := strings.Join([]string{"untouched", cfg, ehv, files[0], files[1], files[2], spare}, " ")
+					a := exec(op)
+					out.Case(op, a, "oracle/"+a, true)
+				}
 			}
 		}
 	}
